@@ -2,6 +2,8 @@
 
 All functions are module-level (picklable by dill and by real worker pools).
 """
+import math
+
 import numpy as np
 
 
@@ -52,6 +54,17 @@ def blob_cast(b, dtype):
 
 def blob_expected(x, cfg):
     return float(blob_cast(blob_of(x), (cfg or {}).get("blob_dtype")))
+
+
+def ll_sixblob(x):
+    """Six well separated narrow modes on a ring of radius 6 (first two coordinates): the clusterer has to find more than the 2-3 clusters of the small targets."""
+    x = np.asarray(x, dtype=float)
+    best = -np.inf
+    for k in range(6):
+        c0, c1 = 6.0 * math.cos(k * math.pi / 3.0), 6.0 * math.sin(k * math.pi / 3.0)
+        r2 = (x[0] - c0) ** 2 + (x[-1] - c1) ** 2 if len(x) > 1 else (x[0] - c0) ** 2
+        best = max(best, -0.5 * r2 / (0.35 + 0.05 * k) ** 2)
+    return float(best)
 
 
 def ll_plateau(x):
